@@ -20,6 +20,9 @@ One1(m) == << Op("Rgate", <<a345>>, <<m>>), Op("Rgate", <<a3m45>>, <<m>>), OpH("
               Op("LossChannel", <<Q(4, 5)>>, <<m>>), Op("LossChannel", <<One>>, <<m>>),
               Op("ThermalLossChannel", <<Q(4, 5), Q(1, 2)>>, <<m>>), Op("ThermalLossChannel", <<Q(4, 5), One>>, <<m>>),
               Op("Vacuum", <<>>, <<m>>), Op("Coherent", <<Q(1, 2), a345>>, <<m>>), Op("Squeezed", <<Q(4, 3), APi2>>, <<m>>) >>
+\* measurement-based squeezing (bosonic simulator only): composing two of them is not one of them -- nothing may be merged
+MB(m)   == << Op("MSgate", <<Q(4, 3), A0, Q(2, 1), Q(4, 5)>>, <<m>>), Op("MSgate", <<Q(3, 2), a345, Q(2, 1), One>>, <<m>>),
+              Op("MSgate", <<Q(3, 4), A0, Q(2, 1), Q(4, 5)>>, <<m>>) >>
 NonG(m) == << Op("Kgate", <<Z(1)>>, <<m>>), Op("Kgate", <<Z(3)>>, <<m>>), OpH("Kgate", <<Z(1)>>, <<m>>),
               Op("Vgate", <<One>>, <<m>>), Op("Vgate", <<Q(-1, 1)>>, <<m>>), OpH("Vgate", <<Q(1, 2)>>, <<m>>) >>
 Two1(m1, m2) == << Op("BSgate", <<a345, A0>>, <<m1, m2>>), OpH("BSgate", <<a345, A0>>, <<m1, m2>>), Op("CXgate", <<One>>, <<m1, m2>>) >>
@@ -27,6 +30,8 @@ RECURSIVE CatM(_, _)
 CatM(F(_), n) == IF n = 0 THEN << >> ELSE CatM(F, n - 1) \o F(n - 1)
 Alphabet == CASE AlphaId = "g" -> CatM(One1, NMod) \o (IF NMod >= 2 THEN Two1(0, 1) \o Two1(1, 0) ELSE << >>)
               [] AlphaId = "h" -> CatM(One1, NMod) \o CatM(NonG, NMod) \o (IF NMod >= 2 THEN Two1(0, 1) \o Two1(1, 0) ELSE << >>)
+              [] AlphaId = "m" -> CatM(MB, NMod) \o << Op("Rgate", <<a345>>, <<0>>), Op("Sgate", <<Q(4, 3), A0>>, <<0>>), Op("LossChannel", <<Q(4, 5)>>, <<0>>),
+                                                      Op("Dgate", <<Q(1, 2), A0>>, <<0>>), OpH("Rgate", <<a345>>, <<0>>) >>
               [] AlphaId = "n" -> CatM(NonG, NMod) \o << Op("Rgate", <<a345>>, <<0>>), Op("Xgate", <<Q(1, 2)>>, <<0>>), Op("Sgate", <<Q(4, 3), A0>>, <<0>>) >>
 
 Init == /\ \E f \in [1 .. Len0 -> 1 .. Len(Alphabet)] : input = [i \in 1 .. Len0 |-> Alphabet[f[i]]]
